@@ -231,7 +231,7 @@ func scenariosFor(tier string) []vrt.Scenario {
 	if tier != "quick" {
 		b = 3
 	}
-	for _, p := range [][]int{{3, 0, 0, 0, 0}, {2, 0, 1, 3}} {
+	for _, p := range [][]int{{3, 0, 0, 0, 0}, {2, 0, 1, 3}, {5, 1, 2, 1}} { // the last: a burst, then smaller positive values while the burst is still pending
 		s := scenario(cfg{interval: 100 * ms, length: 450 * ms, profile: p, slow: 130 * ms})
 		s.Bound = b
 		out = append(out, s)
